@@ -1,4 +1,6 @@
 """Program model over the extracted facts: functions, CFGs, call graph."""
+import json
+import os
 import re
 from collections import defaultdict
 
@@ -189,6 +191,122 @@ def base_var(t):
 # functions
 # --------------------------------------------------------------------------
 
+def _loc_key(l):
+    p = l.rsplit(":", 2)
+    try:
+        return (int(p[1]), int(p[2]))
+    except (IndexError, ValueError):
+        return (0, 0)
+
+
+def local_names(jf):
+    """Ordered [(kind, name, type, initialiser key or None)] of a function's
+    parameters and local declarations (declaration order)."""
+    out = [("param", p["n"], p["t"], None) for p in jf["params"]]
+    decls = []
+    for b in jf["blocks"]:
+        for e in b["ev"]:
+            if e.get("e") == "decl":
+                ik = None
+                if "init" in e:
+                    cv = const_val(e["init"])
+                    ik = str(cv) if cv is not None else "expr"
+                decls.append((_loc_key(e["l"]), e["n"], e.get("t", ""), ik))
+    seen = set()
+    for _, n, t, ik in sorted(decls, key=lambda d: (d[0], d[1])):
+        if (n, t) not in seen:      # a declaration visited twice by the CFG (loop bodies)
+            seen.add((n, t))
+            out.append(("local", n, t, ik))
+    return out
+
+
+_FROZEN_LOCALS = None
+
+
+def frozen_locals():
+    global _FROZEN_LOCALS
+    if _FROZEN_LOCALS is None:
+        path = os.path.join(os.path.dirname(os.path.dirname(os.path.abspath(__file__))), "tables", "locals.json")
+        try:
+            _FROZEN_LOCALS = json.load(open(path))
+        except (IOError, OSError):
+            _FROZEN_LOCALS = {}
+    return _FROZEN_LOCALS
+
+
+def rename_map(current, frozen):
+    """current/frozen: ordered [(kind, name, type, init)].  Returns {current
+    name -> frozen name} for names that exist only on one side and pair up
+    unambiguously (alpha-renaming): first by kind, type and initialiser, then
+    by kind and type, each in declaration order and only when both sides have
+    the same number of unpaired names in the group.  Names present on both
+    sides map to themselves and are left out."""
+    cn = {x[1] for x in current}
+    fz = {x[1] for x in frozen}
+    uc = [x for x in current if x[1] not in fz]
+    uf = [x for x in frozen if x[1] not in cn]
+    m = {}
+    for sig in (lambda x: (x[0], x[2], x[3]), lambda x: (x[0], x[2])):
+        groups = {}
+        for x in uc:
+            if x[1] not in m:
+                groups.setdefault(sig(x), [[], []])[0].append(x[1])
+        used = set(m.values())
+        for x in uf:
+            if x[1] not in used:
+                groups.setdefault(sig(x), [[], []])[1].append(x[1])
+        for _, (a, b) in groups.items():
+            if len(a) == len(b):
+                for x, y in zip(a, b):
+                    m[x] = y
+    # parameters are positional: a renamed parameter whose type changed spelling still pairs by position
+    cp = [x[1] for x in current if x[0] == "param"]
+    fp = [x[1] for x in frozen if x[0] == "param"]
+    if len(cp) == len(fp):
+        for x, y in zip(cp, fp):
+            if x != y and x not in m and x not in fz and y not in cn and y not in m.values():
+                m[x] = y
+    return m
+
+
+def _rename_tree(t, m):
+    if isinstance(t, dict):
+        if t.get("k") == "var" and t.get("kind") in ("param", "local") and t.get("n") in m:
+            t["n"] = m[t["n"]]
+        for v in t.values():
+            if isinstance(v, (dict, list)):
+                _rename_tree(v, m)
+    elif isinstance(t, list):
+        for v in t:
+            if isinstance(v, (dict, list)):
+                _rename_tree(v, m)
+
+
+def alpha_normalise(jf):
+    """Renames locals/parameters of a function back to the names confirmed on
+    the reference tree when the function differs from it only by renaming, so
+    that name-anchored rules see through a rename.  Returns the map used."""
+    fz = frozen_locals().get("%s:%s" % (jf["file"], jf["name"]))
+    if not fz:
+        return {}
+    cur = local_names(jf)
+    fz = [tuple(x) for x in fz]
+    if [x[1] for x in cur] == [x[1] for x in fz]:
+        return {}
+    m = rename_map(cur, fz)
+    if not m:
+        return {}
+    for p in jf["params"]:
+        if p["n"] in m:
+            p["n"] = m[p["n"]]
+    for b in jf["blocks"]:
+        for e in b["ev"]:
+            if e.get("e") == "decl" and e.get("n") in m:
+                e["n"] = m[e["n"]]
+        _rename_tree(b, m)
+    return m
+
+
 class Block(object):
     __slots__ = ("id", "ev", "term", "succ", "label", "noret", "preds", "unreach")
 
@@ -218,6 +336,8 @@ class Function(object):
         self.endline = jf.get("endline", 0)
         self.static = jf["static"]
         self.ret = jf["ret"]
+        self.renamed = jf.get("_renamed") or {}
+        self.inlined = jf.get("inlined") or []
         self.params = jf["params"]
         self.unit = unit
         if jf.get("cfg_failed"):
@@ -320,6 +440,8 @@ class Program(object):
         self.decls = {}
         self.units = []
         self.all_functions = []
+        from . import normalise
+        self.normalised = normalise.apply(facts)
         for u in facts:
             self.units.append(u["unit"])
             for jf in u["functions"]:
